@@ -444,6 +444,12 @@ impl<'a> Ctx<'a> {
         if pages > 1 {
             self.r.count("walks_with_several_pages");
         }
+        if pages > 2 && sk.filter.is_some() && self.r.counter("sampled_queries") < 2 {
+            self.r.count("sampled_queries");
+            let s = json!({"method": "get_cells", "search_key": keys::to_json(sk), "indexer_tip": self.tip_json(), "cells_in_answer": want.len(),
+                           "paged": {"order": if desc {"desc"} else {"asc"}, "limit": limit, "pages": pages}, "first_cells": show_list(&full[..full.len().min(3)], |c| c.show())});
+            self.r.sample(s);
+        }
         if &got != want {
             let dup = {
                 let mut s = got.clone();
